@@ -176,6 +176,10 @@ pub enum SessOp {
   Good(Vec<Event>),
   Rejected(Vec<Event>),
   Congested(Vec<Event>, usize), // free bytes left in the pipe
+  // the sink is completely full at the moment of the send and is emptied shortly afterwards
+  // (a reader that was slow): the writer may give up (Err, judged like a rejected batch) or
+  // get the batch through - but a send that returns Ok has written the batch exactly once
+  FullThenDrained(Vec<Event>),
 }
 
 #[derive(Clone, Debug)]
@@ -188,6 +192,7 @@ pub fn session_json(s: &Session) -> Value {
     SessOp::Good(b) => json!({"good": b.iter().map(ev_text).collect::<Vec<_>>()}),
     SessOp::Rejected(b) => json!({"rejected": b.iter().map(ev_text).collect::<Vec<_>>()}),
     SessOp::Congested(b, f) => json!({"congested": b.iter().map(ev_text).collect::<Vec<_>>(), "free_bytes": f}),
+    SessOp::FullThenDrained(b) => json!({"full_then_drained": b.iter().map(ev_text).collect::<Vec<_>>()}),
   }).collect::<Vec<_>>()})
 }
 
@@ -201,6 +206,8 @@ pub fn session_from_json(v: &Value) -> Option<Session> {
       ops.push(SessOp::Rejected(evs(b)?));
     } else if let Some(b) = o.get("congested") {
       ops.push(SessOp::Congested(evs(b)?, o.get("free_bytes")?.as_u64()? as usize));
+    } else if let Some(b) = o.get("full_then_drained") {
+      ops.push(SessOp::FullThenDrained(evs(b)?));
     }
   }
   Some(Session { ops })
@@ -218,6 +225,67 @@ pub fn run_session_isolated(s: &Session) -> Result<(), Violation> {
     .join()
     .unwrap_or_else(|_| Err(Violation::new("panic", "session thread panicked".to_string())))
   })
+}
+
+// Runs `f` (a send into the write end of `p`) while a second thread empties the pipe, starting
+// `delay_ms` after `f` was entered. Returns f's result and everything that was read.
+// With a long delay this is only a rescue for a writer that waits for room (the unchanged one
+// never does: it has returned long before); with a short one it is the slow reader of
+// FullThenDrained. The verdicts drawn from it do not depend on when exactly the reader starts.
+fn with_drainer<R>(p: &Pipe, delay_ms: u64, f: impl FnOnce() -> R) -> (R, Vec<u8>) {
+  use std::sync::atomic::{AtomicBool, Ordering};
+  let started = AtomicBool::new(false);
+  let stop = AtomicBool::new(false);
+  let r_fd = p.r;
+  std::thread::scope(|sc| {
+    let h = sc.spawn(|| {
+      let mut got: Vec<u8> = Vec::new();
+      while !started.load(Ordering::SeqCst) {
+        std::thread::yield_now();
+      }
+      // (sliced, so that a send that has returned ends the wait at once)
+      let mut waited = 0u64;
+      while waited < delay_ms * 10 && !stop.load(Ordering::SeqCst) {
+        std::thread::sleep(std::time::Duration::from_micros(100));
+        waited += 1;
+      }
+      let mut buf = vec![0u8; 65536];
+      loop {
+        let stopping = stop.load(Ordering::SeqCst);
+        let n = unsafe { libc::read(r_fd, buf.as_mut_ptr() as *mut libc::c_void, buf.len()) };
+        if n > 0 {
+          got.extend_from_slice(&buf[..n as usize]);
+          continue;
+        }
+        if stopping {
+          break;
+        }
+        std::thread::sleep(std::time::Duration::from_micros(100));
+      }
+      got
+    });
+    started.store(true, Ordering::SeqCst);
+    let r = f();
+    stop.store(true, Ordering::SeqCst);
+    let got = h.join().unwrap_or_default();
+    (r, got)
+  })
+}
+
+fn fill_pipe(p: &Pipe, free: usize) -> usize {
+  let cap = unsafe { libc::fcntl(p.w, libc::F_SETPIPE_SZ, 16384) };
+  let cap = if cap > 0 { cap as usize } else { 65536 };
+  let want = cap.saturating_sub(free);
+  let zeros = vec![0u8; 4096];
+  let mut off = 0;
+  while off < want {
+    let n = unsafe { libc::write(p.w, zeros.as_ptr() as *const libc::c_void, (want - off).min(4096)) };
+    if n <= 0 {
+      break;
+    }
+    off += n as usize;
+  }
+  off
 }
 
 pub fn run_session(mem: &MemFile, s: &Session) -> Result<(), Violation> {
@@ -291,20 +359,36 @@ pub fn run_session(mem: &MemFile, s: &Session) -> Result<(), Violation> {
       SessOp::Congested(b, free) => {
         push_records(&mut pending, b);
         let p = Pipe::new();
-        let cap = unsafe { libc::fcntl(p.w, libc::F_SETPIPE_SZ, 16384) };
-        let cap = if cap > 0 { cap as usize } else { 65536 };
-        let fill = vec![0u8; cap.saturating_sub(*free)];
-        let mut off = 0;
-        while off < fill.len() {
-          let n = unsafe { libc::write(p.w, fill[off..].as_ptr() as *const libc::c_void, (fill.len() - off).min(4096)) };
-          if n <= 0 {
-            break;
-          }
-          off += n as usize;
-        }
+        fill_pipe(&p, *free);
         unsafe { libc::dup2(p.w, x) };
-        let _ = w.send(b);
+        // (the reader is only a rescue: it starts after 400 ms, the unchanged writer returns at once)
+        let _ = with_drainer(&p, 400, || { let _ = w.send(b); });
         unsafe { libc::dup2(mem.fd, x) };
+      }
+      SessOp::FullThenDrained(b) => {
+        let p = Pipe::new();
+        let filled = fill_pipe(&p, 0);
+        unsafe { libc::dup2(p.w, x) };
+        let (r, got) = with_drainer(&p, 3, || w.send(b));
+        unsafe { libc::dup2(mem.fd, x) };
+        let written: &[u8] = if got.len() >= filled { &got[filled..] } else { &[] };
+        match r {
+          // (after a failed / short-written batch a writer may first complete that one: then
+          // this episode is not judged, like a congested one)
+          Ok(()) if !pending.is_empty() => {
+            pending.clear();
+          }
+          Ok(()) => {
+            if let Err(mut v) = verify_bytes(written, b) {
+              v.detail = format!("batch {} of a session: the sink was full when the batch of {} events was sent and was emptied 3 ms later; send returned Ok and {} bytes arrived: {}", i, b.len(), written.len(), v.detail);
+              result = Err(v);
+              break;
+            }
+          }
+          Err(_) => {
+            push_records(&mut pending, b);
+          }
+        }
       }
     }
   }
@@ -640,10 +724,15 @@ pub fn check(cfg: &RunCfg, _findings: &Findings) -> Report {
             };
             batch.push(if press { Event::Pressed(all_ref[ki]) } else { Event::Released(all_ref[ki]) });
           }
-          ops.push(match src.weighted(&[60, 22, 18]) {
+          ops.push(match src.weighted(&[58, 20, 16, 6]) {
             0 => SessOp::Good(batch),
             1 => SessOp::Rejected(batch),
-            _ => SessOp::Congested(batch, src.pick(&[0usize, 24, 100, 4096, 5000, 8192])),
+            2 => SessOp::Congested(batch, src.pick(&[0usize, 24, 100, 4096, 5000, 8192])),
+            _ => {
+              // (at most 160 events: up to PIPE_BUF bytes a pipe write is all or nothing)
+              batch.truncate(160);
+              SessOp::FullThenDrained(batch)
+            }
           });
         }
         Session { ops }
@@ -685,7 +774,7 @@ pub fn check(cfg: &RunCfg, _findings: &Findings) -> Report {
           loop {
             let mut c = best.clone();
             let b = match &mut c.ops[i] {
-              SessOp::Good(b) | SessOp::Rejected(b) | SessOp::Congested(b, _) => b,
+              SessOp::Good(b) | SessOp::Rejected(b) | SessOp::Congested(b, _) | SessOp::FullThenDrained(b) => b,
             };
             if b.is_empty() {
               break;
